@@ -121,6 +121,21 @@ def _problem_concerns(problem: str, prop: str) -> bool:
     return (not hit) or any(prop in props for props in hit)
 
 
+def _soft_drift() -> list[str]:
+    """names of body-derived (soft) extracted values that differ from harness/pinned_soft.json"""
+    try:
+        pinned = json.loads((HARNESS / "pinned_soft.json").read_text())["soft"]
+        cur = json.loads((LEAN / "Hv" / "Extracted.values.json").read_text())
+    except Exception:
+        return []
+    return sorted(k for k, v in pinned.items() if cur.get(k) != v)
+
+
+def _soft_problem(p: str) -> bool:
+    """extraction problems raised while reading literals off a function body (they are superseded by the pinned values)"""
+    return "path argument" in p or "cannot read source" in p
+
+
 def prepare(prop: str, thorough: bool = False) -> ProofStatus:
     """extract -> lake build (proofs of this property + driver) -> axiom audit."""
     st = ProofStatus()
@@ -128,11 +143,28 @@ def prepare(prop: str, thorough: bool = False) -> ProofStatus:
     lock = open(LEAN / ".build.lock", "w")
     fcntl.flock(lock, fcntl.LOCK_EX)
     try:
-        r = subprocess.run([PY, str(HARNESS / "extract.py")], capture_output=True, text=True, cwd=ROOT)
+        envx = dict(os.environ)
+        envx.pop("VERIF_PIN_FILE", None)
+        r = subprocess.run([PY, str(HARNESS / "extract.py")], capture_output=True, text=True, cwd=ROOT, env=envx)
         try:
             st.extract = json.loads(r.stdout.strip().splitlines()[-1])
         except Exception:
             st.extract = {"problems": [f"extract.py failed: {r.stderr[-2000:]}"]}
+        # values read off function bodies (harness/pin_soft.py) are drift detectors: when they differ from the pinned ones the
+        # model keeps the pinned values, the drift is recorded and the runner extends the correspondence run
+        drift = _soft_drift()
+        if drift:
+            envx["VERIF_PIN_FILE"] = str(HARNESS / "pinned_soft.json")
+            r = subprocess.run([PY, str(HARNESS / "extract.py")], capture_output=True, text=True, cwd=ROOT, env=envx)
+            try:
+                st.extract = json.loads(r.stdout.strip().splitlines()[-1])
+            except Exception:
+                st.extract = {"problems": [f"extract.py failed: {r.stderr[-2000:]}"]}
+            soft_p = [p for p in st.extract.get("problems") or [] if _soft_problem(p)]
+            st.extract["problems"] = [p for p in st.extract.get("problems") or [] if not _soft_problem(p)]
+            drift += ["problem: " + p for p in soft_p]
+        st.extract["drift_all"] = drift
+        st.extract["drift"] = [d for d in drift if _problem_concerns(d.split(".")[0] if not d.startswith("problem: ") else d, prop)]
         # an extraction problem breaks the tie only of the properties that use that part of the code
         st.extract["problems_all"] = list(st.extract.get("problems") or [])
         st.extract["problems"] = [p for p in st.extract["problems_all"] if _problem_concerns(p, prop)]
@@ -428,7 +460,7 @@ def write_evidence(prop, tier, seed, st: ProofStatus, cov: dict, wall, violation
         "theorems": st.theorems,
         "theorems_discharged": st.discharged,
         "proof_errors": st.errors[:10],
-        "extraction": {k: st.extract.get(k) for k in ("sha256", "n_values", "problems", "changed")},
+        "extraction": {k: st.extract.get(k) for k in ("sha256", "n_values", "problems", "changed", "drift")},
         "build_s": round(st.build_s, 2),
     }
     coverage.update(cov)
